@@ -32,12 +32,12 @@ func zzDecState() (b *DecoderBuffer, d0 []byte) {
 
 // zzDecInv asserts the invariant on the post-state.
 func zzDecInv(b *DecoderBuffer, tag string) {
-	verifAssert(0 <= b.R, tag+": R < 0")
-	verifAssert(b.R <= len(b.Data), tag+": R > len(Data)")
-	verifAssert(b.WindowSize < b.BufferSize, tag+": WindowSize >= BufferSize")
-	verifAssert(verifOr(len(b.Data) <= b.BufferSize, len(b.Data) <= cap(b.Data)), tag+": len(Data) beyond BufferSize and cap")
-	verifAssert(b.Off >= int64(len(b.Data)), tag+": Off < len(Data)")
-	verifAssert(verifOr(len(b.Data) >= b.WindowSize, b.Off == int64(len(b.Data))), tag+": window not addressable")
+	verifAssert(0 <= b.R, tag+": R < 0 [C04]")
+	verifAssert(b.R <= len(b.Data), tag+": R > len(Data) [C04]")
+	verifAssert(b.WindowSize < b.BufferSize, tag+": WindowSize >= BufferSize [C04]")
+	verifAssert(verifOr(len(b.Data) <= b.BufferSize, len(b.Data) <= cap(b.Data)), tag+": len(Data) beyond BufferSize and cap [C04]")
+	verifAssert(b.Off >= int64(len(b.Data)), tag+": Off < len(Data) [C04,C17]")
+	verifAssert(verifOr(len(b.Data) >= b.WindowSize, b.Off == int64(len(b.Data))), tag+": window not addressable [C04]")
 }
 
 // zzDecPost checks Data' = drop(delta, d0) ++ app, R' = R0 - delta, delta <= R0,
@@ -45,13 +45,13 @@ func zzDecInv(b *DecoderBuffer, tag string) {
 func zzDecPost(b *DecoderBuffer, d0 []byte, r0 int, off0 int64, app []byte, tag string) {
 	total := len(d0) + len(app)
 	delta := total - len(b.Data)
-	verifAssert(delta >= 0, tag+": buffer longer than old data plus expansion")
+	verifAssert(delta >= 0, tag+": buffer longer than old data plus expansion [C04]")
 	if delta < 0 {
 		return
 	}
-	verifAssert(delta <= r0, tag+": unread bytes discarded")
-	verifAssert(b.R == r0-delta, tag+": R not moved with the data")
-	verifAssert(b.Off == off0+int64(len(app)), tag+": Off is not the number of bytes written")
+	verifAssert(delta <= r0, tag+": unread bytes discarded [C04,C18]")
+	verifAssert(b.R == r0-delta, tag+": R not moved with the data [C04]")
+	verifAssert(b.Off == off0+int64(len(app)), tag+": Off is not the number of bytes written [C17]")
 	ok := true
 	for i := 0; i < len(b.Data); i++ {
 		j := delta + i
@@ -63,10 +63,10 @@ func zzDecPost(b *DecoderBuffer, d0 []byte, r0 int, off0 int64, app []byte, tag 
 		}
 		ok = verifAnd(ok, b.Data[i] == want)
 	}
-	verifAssert(ok, tag+": buffer content differs from reference expansion")
+	verifAssert(ok, tag+": buffer content differs from reference expansion [C04,C05]")
 	w := b.WindowSize
 	// the most recent min(WindowSize, written) bytes stay addressable
-	verifAssert(verifOr(len(b.Data) >= w, b.Off == int64(len(b.Data))), tag+": window lost")
+	verifAssert(verifOr(len(b.Data) >= w, b.Off == int64(len(b.Data))), tag+": window lost [C04]")
 }
 
 func zzH_decWriteByte() {
@@ -75,7 +75,7 @@ func zzH_decWriteByte() {
 	c := verifU8("c")
 	err := b.WriteByte(c)
 	if err != nil {
-		verifAssert(err == ErrFullBuffer, "WriteByte: unexpected error")
+		verifAssert(err == ErrFullBuffer, "WriteByte: unexpected error [C04]")
 		zzDecPost(b, d0, r0, off0, nil, "WriteByte(full)")
 	} else {
 		zzDecPost(b, d0, r0, off0, []byte{c}, "WriteByte")
@@ -91,11 +91,11 @@ func zzH_decWrite() {
 	p := verifBytes("p", lp)
 	n, err := b.Write(p)
 	if err != nil {
-		verifAssert(err == ErrFullBuffer, "Write: unexpected error")
-		verifAssert(n == 0, "Write: n != 0 on error")
+		verifAssert(err == ErrFullBuffer, "Write: unexpected error [C04]")
+		verifAssert(n == 0, "Write: n != 0 on error [C17]")
 		zzDecPost(b, d0, r0, off0, nil, "Write(full)")
 	} else {
-		verifAssert(n == lp, "Write: n != len(p)")
+		verifAssert(n == lp, "Write: n != len(p) [C17]")
 		zzDecPost(b, d0, r0, off0, p, "Write")
 	}
 	zzDecInv(b, "Write")
@@ -122,14 +122,14 @@ func zzH_decWriteMatch() {
 	invalid := verifOr(verifAnd(o == 0, m > 0), int64(o) > int64(avail))
 	n, err := b.WriteMatch(m, o)
 	if err != nil {
-		verifAssert(n == 0, "WriteMatch: n != 0 on error")
-		verifAssert(verifOr(invalid, verifOr(err == ErrFullBuffer, err == errMatchLen)), "WriteMatch: valid match rejected as malformed")
+		verifAssert(n == 0, "WriteMatch: n != 0 on error [C17,C05]")
+		verifAssert(verifOr(invalid, verifOr(err == ErrFullBuffer, err == errMatchLen)), "WriteMatch: valid match rejected as malformed [C04]")
 		zzDecPost(b, d0, r0, off0, nil, "WriteMatch(err)")
 	} else {
-		verifAssert(!invalid, "WriteMatch: malformed match accepted")
+		verifAssert(!invalid, "WriteMatch: malformed match accepted [C05]")
 		mm := verifConc(int(m))
 		oo := verifConc(int(o))
-		verifAssert(n == mm, "WriteMatch: n != m")
+		verifAssert(n == mm, "WriteMatch: n != m [C17]")
 		g := append([]byte(nil), d0...)
 		if mm > 0 {
 			g = zzExpandMatch(g, mm, oo)
@@ -147,18 +147,18 @@ func zzH_decRead() {
 	lp := verifChoose("lp", verifParam("LP")+1)
 	p := make([]byte, lp)
 	n, err := b.Read(p)
-	verifAssert(err == nil, "Read: error")
+	verifAssert(err == nil, "Read: error [C04]")
 	want := len(d0) - r0
 	want = verifIteInt(want > lp, lp, want)
-	verifAssert(n == want, "Read: n != min(len(p), unread)")
+	verifAssert(n == want, "Read: n != min(len(p), unread) [C04]")
 	nn := verifConc(n)
 	rr := verifConc(r0)
 	ok := true
 	for i := 0; i < nn; i++ {
 		ok = verifAnd(ok, p[i] == d0[rr+i])
 	}
-	verifAssert(ok, "Read: bytes differ from the unread data")
-	verifAssert(b.R == r0+n, "Read: R not advanced by n")
+	verifAssert(ok, "Read: bytes differ from the unread data [C04]")
+	verifAssert(b.R == r0+n, "Read: R not advanced by n [C04]")
 	zzDecPost(b, d0, r0+n, off0, nil, "Read")
 	zzDecInv(b, "Read")
 	verifReach("end")
@@ -195,20 +195,20 @@ func zzH_decWriteTo() {
 	w := &zzWriter{faults: 1, err: ErrOutOfBuffer}
 	n, err := b.WriteTo(w)
 	k := len(w.got)
-	verifAssert(n == int64(k), "WriteTo: n != bytes accepted")
+	verifAssert(n == int64(k), "WriteTo: n != bytes accepted [C04,C18]")
 	rr := verifConc(r0)
 	ok := true
 	for i := 0; i < k; i++ {
 		ok = verifAnd(ok, w.got[i] == d0[rr+i])
 	}
-	verifAssert(ok, "WriteTo: bytes differ from unread data")
-	verifAssert(k <= len(d0)-rr, "WriteTo: more than the unread data")
+	verifAssert(ok, "WriteTo: bytes differ from unread data [C04,C18]")
+	verifAssert(k <= len(d0)-rr, "WriteTo: more than the unread data [C04,C18]")
 	if err == nil {
-		verifAssert(k == len(d0)-rr, "WriteTo: nil error but data left")
+		verifAssert(k == len(d0)-rr, "WriteTo: nil error but data left [C04,C18]")
 	} else {
-		verifAssert(err == ErrOutOfBuffer, "WriteTo: not the writer's error")
+		verifAssert(err == ErrOutOfBuffer, "WriteTo: not the writer's error [C18]")
 	}
-	verifAssert(b.R == r0+k, "WriteTo: R not advanced by the accepted count")
+	verifAssert(b.R == r0+k, "WriteTo: R not advanced by the accepted count [C04,C18]")
 	zzDecPost(b, d0, r0+k, off0, nil, "WriteTo")
 	zzDecInv(b, "WriteTo")
 	verifReach("end")
@@ -218,10 +218,10 @@ func zzH_decReset() {
 	b, _ := zzDecState()
 	w0 := b.WindowSize
 	b.Reset()
-	verifAssert(len(b.Data) == 0, "Reset: data not empty")
-	verifAssert(b.R == 0, "Reset: R != 0")
-	verifAssert(b.Off == 0, "Reset: Off != 0")
-	verifAssert(b.WindowSize == w0, "Reset: WindowSize changed")
+	verifAssert(len(b.Data) == 0, "Reset: data not empty [C04]")
+	verifAssert(b.R == 0, "Reset: R != 0 [C04]")
+	verifAssert(b.Off == 0, "Reset: Off != 0 [C04,C17]")
+	verifAssert(b.WindowSize == w0, "Reset: WindowSize changed [C04]")
 	zzDecInv(b, "Reset")
 	verifReach("end")
 }
@@ -253,12 +253,12 @@ func zzH_decWriteBlock() {
 	for i := range seqs0 {
 		same = verifAnd(same, seqs[i] == seqs0[i])
 	}
-	verifAssert(same, "WriteBlock: caller's block modified")
-	verifAssert(len(blk.Sequences) == ns && len(blk.Literals) == nl, "WriteBlock: caller's slices resliced")
+	verifAssert(same, "WriteBlock: caller's block modified [C05]")
+	verifAssert(len(blk.Sequences) == ns && len(blk.Literals) == nl, "WriteBlock: caller's slices resliced [C05]")
 
 	// reference expansion of the first k sequences
 	kk := verifConc(k)
-	verifAssert(0 <= kk && kk <= ns, "WriteBlock: k out of range")
+	verifAssert(0 <= kk && kk <= ns, "WriteBlock: k out of range [C17]")
 	if kk < 0 || kk > ns {
 		return
 	}
@@ -272,16 +272,16 @@ func zzH_decWriteBlock() {
 		mm := verifConc(int(s.MatchLen))
 		oo := verifConc(int(s.Offset))
 		// a consumed sequence must have been well-formed
-		verifAssert(ll <= nl-lc, "WriteBlock: sequence with LitLen beyond the literals consumed")
+		verifAssert(ll <= nl-lc, "WriteBlock: sequence with LitLen beyond the literals consumed [C05]")
 		if ll > nl-lc {
 			return
 		}
 		av := int(streamOff) + ll
 		av = verifIteInt(w < av, w, av)
-		verifAssert(!(oo == 0 && mm > 0), "WriteBlock: Offset 0 with MatchLen > 0 consumed")
-		verifAssert(oo <= av, "WriteBlock: Offset beyond window/available bytes consumed")
+		verifAssert(!(oo == 0 && mm > 0), "WriteBlock: Offset 0 with MatchLen > 0 consumed [C05]")
+		verifAssert(oo <= av, "WriteBlock: Offset beyond window/available bytes consumed [C05]")
 		if (oo == 0 && mm > 0) || oo > len(g)+ll {
-			verifAssert(false, "WriteBlock: consumed sequence cannot be expanded from the buffered data")
+			verifAssert(false, "WriteBlock: consumed sequence cannot be expanded from the buffered data [C05]")
 			return
 		}
 		g = append(g, lits0[lc:lc+ll]...)
@@ -292,7 +292,7 @@ func zzH_decWriteBlock() {
 		streamOff += int64(ll) + int64(mm)
 	}
 	if err == nil {
-		verifAssert(kk == ns, "WriteBlock: nil error but not all sequences consumed")
+		verifAssert(kk == ns, "WriteBlock: nil error but not all sequences consumed [C04,C17]")
 		g = append(g, lits0[lc:]...)
 		lc = nl
 		verifReach("block-ok")
@@ -304,13 +304,13 @@ func zzH_decWriteBlock() {
 		av = verifIteInt(w < av, w, av)
 		invalid := verifOr(int64(s.LitLen) > int64(rem), verifOr(verifAnd(s.Offset == 0, s.MatchLen > 0), int(s.Offset) > av))
 		wellformedErr := verifOr(err == ErrFullBuffer, err == errMatchLen)
-		verifAssert(verifOr(invalid, wellformedErr), "WriteBlock: valid sequence rejected as malformed")
+		verifAssert(verifOr(invalid, wellformedErr), "WriteBlock: valid sequence rejected as malformed [C04]")
 		verifReach("block-err")
 	} else {
-		verifAssert(err == ErrFullBuffer, "WriteBlock: trailing literals rejected with an unexpected error")
+		verifAssert(err == ErrFullBuffer, "WriteBlock: trailing literals rejected with an unexpected error [C04]")
 	}
-	verifAssert(l == lc, "WriteBlock: l is not the number of literal bytes consumed")
-	verifAssert(n == len(g)-len(d0), "WriteBlock: n is not the number of bytes appended")
+	verifAssert(l == lc, "WriteBlock: l is not the number of literal bytes consumed [C17]")
+	verifAssert(n == len(g)-len(d0), "WriteBlock: n is not the number of bytes appended [C17]")
 	zzDecPost(b, d0, r0, off0, g[len(d0):], "WriteBlock")
 	zzDecInv(b, "WriteBlock")
 	verifReach("end")
@@ -330,8 +330,8 @@ func zzH_decRejectOne() {
 	invalid := verifOr(int64(s.LitLen) > int64(nl), verifOr(verifAnd(s.Offset == 0, s.MatchLen > 0), int64(s.Offset) > av))
 	verifAssume(invalid)
 	n, k, l, err := b.WriteBlock(Block{Sequences: []Seq{s}, Literals: lits})
-	verifAssert(err != nil, "WriteBlock: malformed sequence accepted")
-	verifAssert(verifAnd(k == 0, verifAnd(l == 0, n == 0)), "WriteBlock: malformed first sequence but k,l,n != 0")
-	verifAssert(len(b.Data) <= len(d0), "WriteBlock: data appended although the sequence was rejected")
+	verifAssert(err != nil, "WriteBlock: malformed sequence accepted [C05]")
+	verifAssert(verifAnd(k == 0, verifAnd(l == 0, n == 0)), "WriteBlock: malformed first sequence but k,l,n != 0 [C05,C17]")
+	verifAssert(len(b.Data) <= len(d0), "WriteBlock: data appended although the sequence was rejected [C05]")
 	verifReach("end")
 }
